@@ -54,6 +54,14 @@ func scenarios(c *vlib.Ctx) []*slib.Scn {
 			add("level-change", log.C20Params{Producers: [][]string{{"i:a", "d:b", "w:c"}, {"i:d"}}, Sched: sched, Triggers: trig, Level: "i", Change: ch, Buf: 2, Shutdown: -1}, b)
 			add("level-change", log.C20Params{Producers: [][]string{{"i:a", "d:b", "w:c"}}, Sched: sched, Triggers: trig, Level: "i", Change: ch, Buf: 2, Shutdown: 2}, b)
 		}
+		// a package level set before Start and dropped again (by a later SetPkgLevels without the package, or UnSetPkgLevels): the global level decides again
+		for _, ch := range []string{"pkgdrop", "pkgunset"} {
+			add("pkg-level-dropped", log.C20Params{Producers: [][]string{{"i:a", "d:b", "w:c"}, {"d:e"}}, Sched: sched, Triggers: 1, Level: "i", PkgInit: "d", Change: ch, Buf: 2, Shutdown: -1}, b)
+			add("pkg-level-dropped", log.C20Params{Producers: [][]string{{"i:a", "w:b", "i:c"}}, Sched: sched, Triggers: 1, Level: "i", PkgInit: "w", Change: ch, Buf: 2, Shutdown: -1}, b)
+		}
+		// Start inside the explored window: the root starts the logger, logs and shuts down at once (the writer may not have run yet)
+		add("start-log-shutdown", log.C20Params{Producers: [][]string{{"i:a", "i:b", "i:c"}}, Sched: sched, Level: "i", Buf: 4, Shutdown: 3, Inline: true}, b)
+		add("start-log-shutdown", log.C20Params{Producers: [][]string{{"w:a"}}, Sched: sched, Level: "i", Buf: 0, Shutdown: 1, Inline: true}, b)
 		// context tracer submissions
 		add("tracer", log.C20Params{Producers: [][]string{{"T:s1", "i:a"}, {"i:b", "T:s2"}}, Sched: sched, Triggers: 1, Level: "t", Buf: 2, Shutdown: -1}, b)
 		add("tracer", log.C20Params{Producers: [][]string{{"T:s1", "T:s2", "T:s3"}}, Sched: sched, Triggers: 1, Level: "t", Buf: 2, Shutdown: 2}, b)
@@ -75,7 +83,7 @@ func scenarios(c *vlib.Ctx) []*slib.Scn {
 func main() {
 	vlib.Main("C20", "model_checking", func(c *vlib.Ctx) {
 		c.Rule("stateless exploration of all interleavings within a deviation bound of the real log package (source-instrumented: buffer channel, wake-up flag, forced emptying, writer select choices, 10 ms back-off timers on the virtual clock): " +
-			"1-2 producers x 1-3 lines (distinct, identical consecutive, below/at/above the level, tracer submissions) x {free-running, externally triggered writer} x concurrent level / package-level changes x Shutdown at every position; buffer shrunk to 2 slots, plus the real 1024-slot buffer with 1030 lines; both default schedulers; " +
+			"1-2 producers x 1-3 lines (distinct, identical consecutive, below/at/above the level, tracer submissions) x {free-running, externally triggered writer} x concurrent level / package-level changes (incl. a package level that is dropped again) x Shutdown at every position, plus Start-log-Shutdown in one go; buffer shrunk to 2 slots, plus the real 1024-slot buffer with 1030 lines; both default schedulers; " +
 			"distinct_nontrivial = distinct observation traces (order of deliveries and of Shutdown) per scenario")
 		c.Assume("sequential consistency; a line logged concurrently with a level change, or whose call had not returned when Shutdown was requested, may or may not be emitted")
 		slib.Run(c, scenarios(c), slib.Opts{})
